@@ -101,9 +101,7 @@ def showRes : Res → String
   | .errNsec p => s!"err nsec {proofCh p}"
   | .abort w => w
 
-def showSrv (v : Option Nat × Bool) : String :=
-  let rc := match v.1 with | some n => toString n | none => "pass"
-  s!"srv {rc} {if v.2 then 1 else 0}"
+def showSrv (v : Nat × Bool) : String := s!"srv {v.1} {if v.2 then 1 else 0}"
 
 def splitBar (ts : List String) : List (List String) :=
   ts.foldr (fun t acc => if t == "|" then [] :: acc else match acc with
@@ -112,6 +110,7 @@ def splitBar (ts : List String) : List (List String) :=
 
 def handle (toks : List String) : Option String := do
   match splitBar toks with
+  | ("runx" :: _) :: _ => pure "~"  -- no model side: the implementation run without cache was abandoned
   | [["run", _hid, qname, qtype, _e, d, c, _faults], "U" :: n :: us, "T" :: _ :: ts] =>
     let depth ← (d.drop 1).toNat?
     let cd := c == "C1"
@@ -122,7 +121,7 @@ def handle (toks : List String) : Option String := do
     let r := validate env (depth + 1) 0 q
     match r with
     | .abort w => pure w
-    | _ => pure s!"{showRes r} {showSrv (serverView cd r)}"
+    | _ => pure s!"{showRes r} {showSrv (serverView cd q r)}"
   | _ => none
 
 def step (s : State) (toks : List String) : State × String :=
